@@ -3,6 +3,7 @@
 package c10
 
 import (
+	"reflect"
 	"fmt"
 	"sort"
 	"testing"
@@ -85,6 +86,36 @@ func run(w *core.Worker, c Case) {
 		for i, k := range want {
 			if got[i].k != k || got[i].v != model[k] {
 				w.Violation("btree.traverse-order", fmt.Sprintf("after step %d: Traverse visited %v, want keys %v with values %v", step, got, want, model))
+				return false
+			}
+		}
+		// Re-entrant use: a Traverse started from inside a Traverse callback (a nested loop over the
+		// map). Both walks must deliver the complete sequence just verified; walks must not share state.
+		if len(got) > 0 {
+			nestAt := (step + len(c.Ops)) % len(got)
+			var outer, inner []kv
+			p := core.Catch(func() {
+				t.Traverse(func(k, v int) {
+					outer = append(outer, kv{k, v})
+					if len(outer) > len(got)+8 {
+						panic("verif: traverse overrun")
+					}
+					if len(outer)-1 == nestAt {
+						t.Traverse(func(k2, v2 int) {
+							inner = append(inner, kv{k2, v2})
+							if len(inner) > len(got)+8 {
+								panic("verif: traverse overrun")
+							}
+						})
+					}
+				})
+			})
+			if p != nil {
+				w.Violation("btree.nested-traverse-panic", fmt.Sprintf("after step %d: a Traverse nested in the callback of a Traverse at position %d panicked/overran: %v", step, nestAt, p))
+				return false
+			}
+			if !reflect.DeepEqual(outer, got) || !reflect.DeepEqual(inner, got) {
+				w.Violation("btree.nested-traverse", fmt.Sprintf("after step %d: Traverse with a nested Traverse started at position %d: outer walk %v, inner walk %v, a plain Traverse gives %v", step, nestAt, outer, inner, got))
 				return false
 			}
 		}
@@ -237,7 +268,7 @@ func FuzzBTree(f *testing.F) {
 func TestProp(t *testing.T) {
 	r := core.Start(t, "C10")
 	defer r.Finish()
-	r.Rule("cases = Put (fresh value per step)/Remove/Get sequences on btree.BTree[int,int] checked against a map model: Height <= log2(max(1, distinct keys ever inserted)) after every step, Size, IsEmpty, Get of the key just written/removed before any other lookup, then Get of every probe key and the full Traverse sequence, after the last step (sweep) or every 1st/2nd/5th/11th step (random) or periodically (bulk); non-trivial = the sequence overwrote or removed a present key; btree-deep: sorted/reversed loads of 20 000+ keys and shuffled loads of 300-3000 keys of which all or most are removed again (Size after every Remove) and half re-put; btree-orders: insertion orders built from ascending/descending runs over shuffled contiguous key blocks, zigzag and middle-out orders; distinct by hash of the ops")
+	r.Rule("cases = Put (fresh value per step)/Remove/Get sequences on btree.BTree[int,int] checked against a map model: Height <= log2(max(1, distinct keys ever inserted)) after every step, Size, IsEmpty, Get of the key just written/removed before any other lookup, then Get of every probe key and the full Traverse sequence (plain, and again with a second Traverse started from inside the callback), after the last step (sweep) or every 1st/2nd/5th/11th step (random) or periodically (bulk); non-trivial = the sequence overwrote or removed a present key; btree-deep: sorted/reversed loads of 20 000+ keys and shuffled loads of 300-3000 keys of which all or most are removed again (Size after every Remove) and half re-put; btree-orders: insertion orders built from ascending/descending runs over shuffled contiguous key blocks, zigzag and middle-out orders; distinct by hash of the ops")
 
 	var alpha []Op
 	for k := 0; k <= 5; k++ {
